@@ -38,7 +38,8 @@ def r1_weighted_tensor(ctx):
     rtxt = rets[0] if rets else ""
     ctx.form("C06.R1", ws, ws.node, rtxt, {"((%0 * $0.filled(0)).sum(**$kwargs).masked_fill(%0.sum(**$kwargs) == 0, $k0), %0.sum(**$kwargs))"},
              ["$0.filled(0)", "masked_fill(", ".sum(**$kwargs) == 0"], "weights multiply self.filled(0); empty aggregates filled; value-sum and weight-sum over the same axes",
-             "wsum multiplies the weights with unfilled values (a NaN / inf at a masked position gives NaN in the sum) or no longer fills empty aggregates", construct="weighted sum")
+             "wsum multiplies the weights with unfilled values (a NaN / inf at a masked position gives NaN in the sum) or no longer fills empty aggregates", construct="weighted sum",
+             forbidden=[r"\* \$0\.value\b", r"\$0\.value \*", r"else \$0\.value\b", r"\* \(?[^()]* else \$0\.value\)"])
     dflt = [st for st in statements(ws.node) if isinstance(st, ast.Assign) and isinstance(st.value, ast.Call) and U(st.value.func) == "torch.ones_like" and U(st.value.args[0]) == "self.value"]
     ctx.check(bool(dflt), "C06.R1", ws, dflt[0] if dflt else ws.node, "no weights = all ones", "an unweighted tensor is no longer summed with unit weights", construct="default weights")
     wv = ix.func(WT, "WeightedTensor.weighted_value", "C06.R1")
@@ -254,6 +255,7 @@ VARIANTS = [
         )""", "C06.R3"),
     V("count-model-entries", GAU, "\"n_obs\": LinkedVariable(\n                    Sqr(\"y\").then(wsum_dim_return_sum_of_weights_only)", "\"n_obs\": LinkedVariable(\n                    Sqr(\"model\").then(wsum_dim_return_sum_of_weights_only)", "C06.R4"),
     V("silent-mask-from-y", GAU, "s2 = sum_dim(WeightedTensor(model_x_model, y_x_model.weight))", "s2 = sum_dim(WeightedTensor(model_x_model, state[\"y\"].weight))", None),
+    V("wsum-fill-only-when-nan", W, "        weighted_values = weight * self.filled(0)\n", "        vals = self.filled(0) if torch.isnan(self.value).any() else self.value\n        weighted_values = weight * vals\n", "C06.R1"),
     V("silent-rename-wsum-locals", "src/leaspy/utils/weighted_tensor/_weighted_tensor.py", "        weighted_values = weight * self.filled(0)\n        weighted_sum = weighted_values.sum(**kws)\n        sum_weights = weight.sum(**kws)\n        return weighted_sum.masked_fill(sum_weights == 0, fill_value), sum_weights",
       "        wv = weight * self.filled(0)\n        total = wv.sum(**kws)\n        n_w = weight.sum(**kws)\n        return total.masked_fill(n_w == 0, fill_value), n_w", None),
 ]
